@@ -294,8 +294,8 @@ def run_cli(ctx):
     seeds = [ctx.rng.randrange(1 << 30) for _ in range(8 if quick else 120)]     # the targeted corpus + a few; breadth comes from _cliworld
     results = []
     with cf.ThreadPoolExecutor(max_workers=4) as ex:
-        futs = [ex.submit(cli_case, ctx, 1000 + j, 7 + j, t) for j, t in enumerate(TARGETED_CLI)]     # the slow ones first
-        futs += [ex.submit(cli_case, ctx, i, s) for i, s in enumerate(seeds)]
+        futs = [ex.submit(W.confirmed, cli_case, ctx, 1000 + j, 7 + j, t) for j, t in enumerate(TARGETED_CLI)]     # the slow ones first
+        futs += [ex.submit(W.confirmed, cli_case, ctx, i, s) for i, s in enumerate(seeds)]
         for f in futs:
             results.append(f.result())
     count_bad = []
@@ -305,6 +305,7 @@ def run_cli(ctx):
         for m, (exp, got) in r["model_counts"].items():
             if exp != got:
                 count_bad.append((r, m, exp, got))
+    ctx.coverage["cli_unconfirmed_oracle_failures"] = [(r.get("mode"), r["unconfirmed"], r.get("unconfirmed_record")) for r in results if r.get("unconfirmed")]
     ctx.coverage["cli_builds"] = len(results)
     ctx.coverage["cli_modes"] = {m: sum(1 for r in results if r["mode"] == m) for m in ("all", "minimal")}
     ctx.coverage["cli_workers"] = {str(w): sum(1 for r in results if r["workers"] == w) for w in (1, 2, 3, 8)}
